@@ -105,7 +105,40 @@ def gen_spec(r: apigen.Rng, idx: int, nlro=None, layout=None):
             r.pick(lros)["name"] = r.pick(["Operation", "Operation", "OperationAsync"])
         if r.maybe(0.45):      # a second service, in the file nobody imports (LRO methods in several services and files)
             spec["svc2"] = gen_second_service(r, spec)
+    if r.maybe(0.35):
+        add_dependency_file(r, spec)
     spec["service_yaml"] = gen_yaml(r, spec["pkg"]) if r.maybe(0.45) else None
+    return spec
+
+
+DEP_PKGS = ["acme.shared.v1", "globex.common", "acme.shared.v1"]
+
+
+def add_dependency_file(r, spec):
+    """35% of the APIs: 1-3 LRO response/metadata names are FULL names of messages of a DEPENDENCY-ONLY file of another package (in
+    proto_file, not in file_to_generate).  The service's file does not import it; another target file does (the un-imported file,
+    which may come after the service's file, or the file the service imports).  proto_file order: any position before its importer —
+    before or AFTER the service's file (protoc only guarantees that a file follows the files it imports)."""
+    importer = r.pick(["unimp", "unimp", "unimp", "imp"])
+    order = [x for x in spec["order"] if x != "dep"]
+    if importer == "unimp" and order.index("unimp") < order.index("svc") and r.maybe(0.6):
+        order.remove("unimp")
+        order.append("unimp")
+    hi = order.index(importer)
+    after = [k for k in range(hi + 1) if k > order.index("svc")]
+    pos = r.pick(after) if after and r.maybe(0.7) else r.randint(0, hi)
+    order.insert(pos, "dep")
+    spec["order"] = order
+    pkg = r.pick(DEP_PKGS)
+    spec["dep"] = {"pkg": pkg, "stem": r.pick(["op_types", "operation_metadata", "common", "shared_types"]), "msgs": ["OpMeta", "OpResult"],
+                   "nested": [["Wrap", "Core"]], "importer": importer}
+    where = ("after" if order.index("dep") > order.index("svc") else "before") + f"-svc-imported-by-{importer}"
+    lros = [m for m in spec["methods"] if m["kind"] == "lro"]
+    if spec.get("svc2") and r.maybe(0.4):
+        lros += [m for m in spec["svc2"]["methods"] if m["kind"] == "lro"]
+    for _ in range(r.randint(1, 3)):
+        full = f"{pkg}." + r.pick(["OpMeta", "OpMeta", "OpResult", "Wrap.Core"])
+        r.pick(lros)[r.pick(["metadata", "metadata", "response"])] = {"case": "abs-depfile-" + where, "text": full, "target": full}
     return spec
 
 
@@ -508,6 +541,19 @@ def build_files(spec):
             o = f.msg(outer); o.field("name"); o.field("n", "int32")
             i = o.nested(inner); i.field("name"); i.field("n", "int32")
         out[role] = f
+    dep = spec.get("dep")
+    if dep:
+        g = apigen.File(f"{dep['pkg'].replace('.', '/')}/{dep['stem']}.proto", dep["pkg"], deps=[])
+        g.is_dep = True
+        for n in dep["msgs"]:
+            m = g.msg(n); m.field("name"); m.field("n", "int32")
+        for outer, inner in dep["nested"]:
+            o = g.msg(outer); o.field("name"); o.field("n", "int32")
+            i = o.nested(inner); i.field("name"); i.field("n", "int32")
+        out["dep"] = g
+        imp_f = out[dep["importer"]]
+        imp_f.dep(g.name)                      # ANOTHER target file imports (and uses) it; the service's file does not
+        hold = imp_f.msg("LastOperation"); hold.field("name"); hold.field("meta", "message", type_name=f".{dep['pkg']}.{dep['msgs'][0]}")
     f = out["svc"]
     rq = out[io_role(spec)].msg("ThingRequest"); rq.field("name")
     first = io_first(spec)
@@ -586,7 +632,8 @@ def make_request(spec, files):
                     if body:
                         fh.write("%sbody: '%s'\n" % (ind, body))
         params += ",service-yaml=" + path
-    return apigen.request(files, params), tmp
+    targets = [f for f in files if not getattr(f, "is_dep", False)]
+    return apigen.request(files, params, targets=targets if len(targets) != len(files) else None), tmp
 
 
 def model_files(req):
@@ -706,6 +753,8 @@ def gen_selectors(r, spec, n):
     pkg = spkg(spec)
     locals_ = [f"{fpkg(spec, role)}.{x}" for role in ROLES for x in spec["files"][role]["msgs"]]
     nested = [f"{fpkg(spec, role)}." + ".".join(x) for role in ROLES for x in spec["files"][role]["nested"]]
+    if spec.get("dep"):
+        locals_ = locals_ + [f"{spec['dep']['pkg']}.{x}" for x in spec["dep"]["msgs"]] * 2
     out = []
     for _ in range(n):
         full = r.pick(locals_ + nested + list(WKT))
@@ -891,6 +940,11 @@ def t2_resolve(ctx, r):
 def defined_messages(spec):
     """full names of every message the request defines (INPUT side, from the spec)"""
     out = set(WKT)
+    if spec.get("dep"):
+        d = spec["dep"]
+        out.update(f"{d['pkg']}.{n}" for n in d["msgs"])
+        for path in d["nested"]:
+            out.update(f"{d['pkg']}." + ".".join(path[:k]) for k in range(1, len(path) + 1))
     for role in ROLES:
         pk = fpkg(spec, role)
         out.update(f"{pk}.{n}" for n in spec["files"][role]["msgs"])
@@ -975,6 +1029,9 @@ def _run_spec(ctx, r, spec, label, files, req, transports):
     for m in lros:
         ctx.count("response_case", m["response"]["case"]); ctx.count("metadata_case", m["metadata"]["case"])
     ctx.count("file_order", ",".join(spec["order"]))
+    if spec.get("dep"):
+        o = spec["order"]
+        ctx.count("dependency_only_file", ("after" if o.index("dep") > o.index("svc") else "before") + "-svc:imported-by-" + spec["dep"]["importer"])
     for role in ROLES:
         if spec["files"][role]["stem"] in RESERVED_STEMS:
             ctx.count("reserved_file_name", f"{role}:{spec['files'][role]['stem']}:" + ("api-dir" if fpkg(spec, role) == spec["pkg"] else "sub-package-dir"))
@@ -1046,6 +1103,9 @@ def _run_spec(ctx, r, spec, label, files, req, transports):
     t2_alias(ctx, r, spec, api, svc)
     # ---- T3
     root = genrun.materialise(res)
+    for f in files:
+        if getattr(f, "is_dep", False):
+            genrun.materialise_pb2(root, f.pb)      # the dependency's own module (protoc's python plugin's job)
     try:
         ids = iter(range(1, 10 ** 6))
         names = NameSource(ctx, spec, ids)
@@ -1519,6 +1579,9 @@ def run_excluded(ctx, r):
                "that declares the service (`/sub/<name>` for a service in a sub-package `<pkg>.sub`, not `/v1/<name>`); the statement does not fix the URL, so only "
                "the operation name inside the polled URL is demanded by the oracle; the prefix is compared with the model, which computes it from the declaring "
                "file's package as given in the INPUT (theorem default_poll_url_of_declaring_package)")
+    ctx.assume("a DEPENDENCY-ONLY file (in proto_file, not generated) that defines an LRO type is not called metadata|retry|timeout|request|<keyword>|__init__.proto: "
+               "API.build renames such a file too (`metadata_.proto`) and the emitted library then imports `<pkg>.metadata__pb2`, a module protoc never wrote "
+               "(observed on the unchanged tree, replays/C08/dep_file_reserved_name.json; an import-graph matter reported to the coordinator, not generated here)")
     ctx.assume("polling (sleep schedule, deadline, retry of GetOperation) is api-core's; the model is 'the first done operation decides' and time is trapped in T3")
     for label, text in (("unknown", "Nope"), ("unknown-abs", f"{pkg}.Nope"), ("leading-dot", f".{pkg}.Book"), ("partial", "v1.Book"),
                         ("other-package-relative", "Duration"), ("whitespace-name", " "), ("trailing-space", "Book "), ("leading-space", " Book")):
@@ -1556,7 +1619,9 @@ def run(ctx):
                 "one service in the API package and one in a sub-package (either is the fully exercised one; 20%: sibling sub-packages, nothing in the API package); 13% "
                 "`msgs-in-sub` = the service in the API package, its request / plain response / LRO messages in a sub-package; shadowed short names across the packages, "
                 "same file stem in two packages; all of them on gRPC, asyncio gRPC and REST with the same histories, programs and service configs; LRO methods share response/metadata types in every combination (same response, same metadata, "
-                "both, crossed, one's response = another's metadata, chains); rpcs named Operation/OperationAsync and files operation(_async).proto (module alias); 40% of the APIs call one or two of the files that "
+                "both, crossed, one's response = another's metadata, chains); rpcs named Operation/OperationAsync and files operation(_async).proto (module alias); 35% of the APIs name LRO types by FULL name in a "
+                "DEPENDENCY-ONLY file of another package (in proto_file, not generated) that only ANOTHER target file imports, placed before or AFTER the service's file "
+                "in proto_file (every file follows the files it imports); 40% of the APIs call one or two of the files that "
                 "define the LRO types (imported or not, API directory or sub-package directory; sometimes the service's own file) metadata|retry|timeout|request|"
                 "<keyword>|__init__.proto (API.build must rename them: the method's own parameters would shadow the types module where the future is built); "
                 "a second service in the un-imported file (0..2 LROs, sometimes none: no operations client); service-config http rules for Operations "
